@@ -157,7 +157,7 @@ func RunC08(p *harness.Program, thorough bool) Result {
 				c["fault-not-hit"]++
 			}
 			c["recovered-maybe-state"] += fr.Counters["recovered-maybe-state"]
-			for _, k := range []string{"fault-crash-images", "fault-crash-images-with-unconfirmed-commit", "fault-crash-recovered-unconfirmed-commit", "begin-failed-by-fault", "known-F16-exposed-no-suffix"} {
+			for _, k := range []string{"fault-crash-images", "fault-crash-images-with-unconfirmed-commit", "fault-crash-recovered-unconfirmed-commit", "begin-failed-by-fault", "close-under-faults"} {
 				c[k] += fr.Counters[k]
 			}
 			c["commit-failed-sync-only"] += fr.Counters["commit-failed-sync-only"]
